@@ -118,7 +118,9 @@ def c06(tr, viol):
                         bad.append("identity")
                     if ce["auth"] != want_auth or ce["acct"] != want_acct:
                         bad.append("application ids")
-                    if ce["vendor_id"] is None or not ce["product_name"] or ce["host_ip"] != ["10.0.0.1"]:
+                    # (addresses: the CEA lists the node's addresses; the node's own CER lists those of the connection it goes out on)
+                    want_ips = ["10.0.0.%d" % (k + 1) for k in range(tr.cfg.get("ips", 1))]
+                    if ce["vendor_id"] is None or not ce["product_name"] or (not s["req"] and ce["host_ip"] != want_ips) or not ce["host_ip"]:
                         bad.append("vendor / product / addresses")
                     if bad:
                         viol("ce-advertises-node", case_of(tr, i), {k: ce[k] for k in ("origin_host", "auth", "acct", "vendor_id", "product_name", "host_ip")},
@@ -195,7 +197,8 @@ def c08(tr, viol):
         if e["ev"] == "recv":
             cid = e["cid"]
             cb = conn_of(before, cid)
-            if cb and cb[2] in (2, 3) and len(tr.frames[i]) == 1:
+            # (a connection that the timers close at this very wake-up - before its bytes are read - serves nothing)
+            if cb and cb[2] in (2, 3) and len(tr.frames[i]) == 1 and cid not in o["closed"]:
                 fr = tr.frames[i][0]
                 if fr["req"] and fr["cmd"].startswith("App"):
                     origin = fr["origin"][1].lower() if fr["origin"][0] == "Present" else None
@@ -271,7 +274,8 @@ def c09(tr, viol):
         if e["ev"] == "recv":
             for d in o["delivered"]:
                 # a request the node answered itself in the same breath (its handler raised: 5012) is no longer open
-                self_answered = any((not s["req"]) and s["hbh"] == d[1] and s["e2e"] == d[2] for s in o["sends"].get(e["cid"], []))
+                self_answered = any((not s["req"]) and s["hbh"] == d[1] and s["e2e"] == d[2] for s in o["sends"].get(e["cid"], [])) \
+                    or any(fr.get("tag") == 1 and fr["hbh"] == d[1] and fr["e2e"] == d[2] for fr in tr.frames[i])   # (answer may be held back by a stalled socket)
                 if not self_answered:
                     arrived[(d[1], d[2])] = e["cid"]
         if e["ev"] == "app_answer":
@@ -333,6 +337,11 @@ def c11(tr, viol):
                     if now - prev_read.get(cid, 0) <= idle:
                         viol("no-dwr-while-busy", case_of(tr, i), s, what="DWR sent although traffic arrived within the idle timeout")
                     dwr_at[cid] = now
+        # a DWA read in the same wake-up in which the DWR went out has already been consumed (timers run before the reader):
+        # the connection's own state says whether an answer is still awaited
+        for c in snap["conns"]:
+            if c[2] != 3:
+                dwr_at.pop(c[0], None)
         if e["ev"] == "tick":
             for c in snap["conns"]:
                 cid = c[0]
@@ -467,7 +476,12 @@ def c17(tr, viol):
                 ans = next((s for s in o["sends"].get(cid, []) if not s["req"] and s["hbh"] == fr["hbh"] and s["e2e"] == fr["e2e"]), None)
                 deliv = [d for d in o["delivered"] if d[1] == fr["hbh"] and d[2] == fr["e2e"]]
                 is_dup = bool(fr["t"] and origin and fr["e2e"] in window.get(origin, []) and not (fr["missing"] and tr.cfg["validate"]))
-                if is_dup:
+                if is_dup and cid in o["stalled"]:
+                    # the socket takes nothing: the 5012 is queued, not written; only the non-delivery is visible now
+                    if deliv:
+                        viol("duplicate-rejected", case_of(tr, i), {"delivered": deliv},
+                             what="a T-flagged repeat of an answered request was delivered to an application again")
+                elif is_dup:
                     if deliv or ans is None or ans["result"] != 5012:
                         viol("duplicate-rejected", case_of(tr, i), {"delivered": deliv, "answer": ans},
                              what="a T-flagged repeat of an answered request was not rejected with 5012")
@@ -541,7 +555,9 @@ def c10(tr, viol):
                     viol("none-is-not-routable", case_of(tr, i), {"sent": [(c, s_["hbh"]) for c, s_ in reqs], "result": res},
                          what="no eligible ready peer, yet the request was sent or no NotRoutable was raised")
             else:
-                stalled_ok = (not reqs) and any(c in o["stalled"] for c in eligible) and res is None
+                # nothing on the wire, caller blocked: the socket takes nothing, or the timers closed the connection at this very
+                # wake-up before the queued request was written
+                stalled_ok = (not reqs) and res is None and any(c in o["stalled"] or c in o["closed"] for c in eligible)
                 if not stalled_ok:
                     if len(reqs) != 1 or reqs[0][0] not in eligible:
                         viol("eligible-ready-peer", case_of(tr, i, {"eligible": eligible}), [(c, s_["hbh"]) for c, s_ in reqs],
